@@ -82,7 +82,14 @@ def corrupt(rng, fr, region=None):
     if region is None and rng.random() < 0.25:
         # damage that is not a substitution: a doubled start byte (the checksum then covers only the tail), an
         # inserted or a lost byte, a frame cut short
-        kind = rng.choice(["dup-stx", "insert", "delete", "truncate", "truncate-short"])
+        kind = rng.choice(["dup-stx", "insert", "delete", "truncate", "truncate-short", "glued-bad-good", "glued-good-bad"])
+        if kind == "glued-bad-good":
+            # a damaged copy and the intact frame in one segment
+            bad = corrupt(rng, fr, region="content")[0]
+            return bad + fr, 0, -1
+        if kind == "glued-good-bad":
+            bad = corrupt(rng, fr, region="checksum")[0]
+            return fr + bad, 0, -1
         if kind == "dup-stx":
             return STX * rng.choice([1, 1, 2]) + fr, 0, 2
         if kind == "insert":
@@ -124,7 +131,8 @@ def ev_hex(ev):
 # unit alphabet of the receiver properties (C02) and session builders (C01, C03)
 # ---------------------------------------------------------------------------------------------
 
-UNIT_KINDS = ["ENQ", "EOT", "ACK", "NAK", "final", "inter", "corrupt", "stxgarb", "stxvalid", "garb", "empty"]
+UNIT_KINDS = ["ENQ", "EOT", "ACK", "NAK", "final", "inter", "corrupt", "stxgarb", "stxvalid", "garb", "empty",
+              "crlf", "crlf+ctl", "glued"]
 
 
 def unit(rng, kind):
@@ -158,6 +166,22 @@ def unit(rng, kind):
                 return g
     if kind == "empty":
         return b""
+    if kind == "crlf":
+        # line terminators on their own (e.g. split off the previous frame by the network)
+        return rng.choice([b"\r\n", b"\n", b"\r", b"\r\n\r\n", b"\n\r"])
+    if kind == "crlf+ctl":
+        # a run of CR/LF directly followed by something that would be a protocol unit on its own
+        tail = rng.choice([ENQ, EOT, ACK, NAK, message_frames(rng, seq=rng.randrange(8), parts=1)[0][0]])
+        return rng.choice([b"\r\n", b"\n", b"\r", b"\n\n"]) + tail
+    if kind == "glued":
+        # two frames delivered in one segment: <frame> CR LF <frame>, each valid or damaged
+        a = message_frames(rng, seq=rng.randrange(8), parts=1)[0][0]
+        b = message_frames(rng, seq=rng.randrange(8), parts=1)[0][0]
+        if rng.random() < 0.5:
+            a = corrupt(rng, a, region=rng.choice(["content", "checksum"]))[0]
+        if rng.random() < 0.5:
+            b = corrupt(rng, b, region=rng.choice(["content", "checksum"]))[0]
+        return a + b
     raise ValueError(kind)
 
 
